@@ -84,6 +84,18 @@ Proof.
   replace (str_eqb_ci s_import s_import) with true by reflexivity. rewrite H. reflexivity.
 Qed.
 
+(* ... and its `layer(a.b)` is written by the value walker: the layer name is not a class (fix in /repo: the generic
+   prelude loop used the class-name converter for every function) *)
+Lemma import_passthrough_layer : forall o rec contain mark path p x px body be cl ps r st,
+  str_eqb_ci x s_layer = true ->
+  at_prelude o rec contain mark (Leaf (TStr path) p :: Block (TFunc x) px body be cl :: Leaf TSemi ps :: r) st =
+  (r, tok_at (tok_at (rpx_body o false body None (tok_at (tok_at st (TStr path) p None) (TFunc x) px None))
+                     TCloseParen px None) TSemi ps None).
+Proof.
+  intros o rec contain mark path p x px body be cl ps r st H.
+  cbn [at_prelude node_tok is_ws_or_comment is_layer_fn close_of]. rewrite H. reflexivity.
+Qed.
+
 (* an import that is not first in its rule list is flagged *)
 Lemma import_position_warning : forall o rec sign p r endp st,
   import_sign o = Some sign ->
